@@ -101,6 +101,9 @@ class Module(object):
   def __init__ (self, repo, name, path, src):
     self.repo = repo; self.name = name; self.path = path; self.src = src
     self.tree = ast.parse(src, path)
+    if repo.normalize:
+      from . import norm
+      self.tree = norm.normalize_module(self.tree, name, repo.norm_stats)
     self.short = name[4:] if name.startswith('pox.') else name
     self.is_pkg = os.path.basename(path) == '__init__.py'
     self.funcs = {}; self.classes = {}; self.assigns = {}
@@ -224,8 +227,9 @@ def targets_of (t):
   return []
 
 class Repo(object):
-  def __init__ (self, root, subdirs=('pox',)):
+  def __init__ (self, root, subdirs=('pox',), normalize=True):
     self.root = os.path.abspath(root)
+    self.normalize = normalize; self.norm_stats = {}
     self.modules = {}
     self.parse_errors = []
     self.dynamic = {}     # module name -> {global name: value}  (see dynnames)
